@@ -493,6 +493,17 @@ def check_C09(res, scratch, tier, seed):
     recs, st = run_harness(os.path.join(builds[0], "yv_replay"), blocks, args=("-t",), timeout=1500)
     handle_c09_recs(res, recs, mine, {})
     all_groups += la_groups(recs)
+    # --- (D) the cache as a state machine (Cache.tla): a reused result is the set a fresh computation gives
+    def cache_cfg(maxpl, rec, maxrec):
+        return ("SPECIFICATION Spec\nCONSTANTS\n  GrammarsC <- Curated\n  TermsC = {1, 2, 3}\n  MaxPl = %d\n  WithRecovery = %s\n  MaxRec = %d\n"
+                "  Versioned = TRUE\nINVARIANTS CacheSound\nCHECK_DEADLOCK FALSE\n" % (maxpl, "TRUE" if rec else "FALSE", maxrec))
+    for tag, cfg in (("cache_norec", cache_cfg(12 if tier == "quick" else 14, False, 0)), ("cache_rec", cache_cfg(7 if tier == "quick" else 9, True, 2))):
+        t = run_tlc(scratch, "MCCache", cfg, tag, timeout=3000)
+        if t["status"] == "violation":
+            res.violation("spec-invariant:CacheSound:" + tag, {"tlc_tail": t["tail"][-3000:]})
+        elif t["status"] != "ok":
+            raise Infra("TLC MCCache %s: %s\n%s" % (tag, t["status"], t["tail"][-2500:]))
+        res.add_tlc(t)
     # --- the sets reused from the cache and their fresh re-computations are valid Earley sets (EarleyTrace.tla)
     earley_trace_part(res, scratch, tier, seed + 1, builds, ("C09",), kinds=("curated", "random", "random_err", "random_trans"))
     # --- TLC validates the groups
